@@ -41,7 +41,9 @@ type Res struct {
 	Names   []string
 	Infos   []observe.Entry
 	Info    *observe.Entry
-	Hang    *observe.HangError
+	// Name: what the handle (open/create) or the FileInfo (stat/fstat) calls itself
+	Name string
+	Hang *observe.HangError
 }
 
 type Runner struct {
@@ -233,6 +235,7 @@ func (r *Runner) Do(s Step) (res Res) {
 			acc := flag & (os.O_WRONLY | os.O_RDWR)
 			// truncation is committed at Close/Sync like every other write
 			r.Slots[s.Slot] = &Slot{H: h, Path: s.Path, Flag: flag, Mut: acc != 0, Dirty: acc != 0 && flag&os.O_TRUNC != 0}
+			res.Name = h.Name()
 		}
 	case "write", "writestring", "writeat":
 		sl := slot()
@@ -310,6 +313,7 @@ func (r *Runner) Do(s Step) (res Res) {
 			res.Err = err
 			if err == nil {
 				res.Info = entryOf(sl.Path, fi)
+				res.Name = fi.Name()
 			}
 		})
 	case "close":
@@ -344,6 +348,7 @@ func (r *Runner) Do(s Step) (res Res) {
 			res.Err = err
 			if err == nil {
 				res.Info = entryOf(observe.Clean(s.Path), fi)
+				res.Name = fi.Name()
 			}
 		})
 	case "list":
